@@ -572,4 +572,94 @@ def IncN.htrace (e : IncN) : List HOp → List HRes
 
 def NRule.toCRule (r : NRule) : CRule := { prio := r.prio, noLoop := r.noLoop, ck := r.ck, limit := r.limit, ak := r.ak, inc := r.inc }
 
+/-! ### Rules whose ACTIONS retract facts on `IncrementalEngine` (`K` cases).  The action of a rule queues `ActionResult::Retract`
+/ `RetractByType` results; `fire_all` runs the action, re-propagates (`propagate_changes`), applies the queued results in order
+(`process_action_results`: a retraction that fails — unknown or already retracted handle — is logged and ignored) and THEN marks
+the rule fired (`mark_rule_fired`) — whatever the results did.  Same loop skeleton (`incLoop`) and agenda as `Inc` / `IncN`.
+`WorkingMemory::get_by_type` iterates a `HashSet<FactHandle>`: the order in which the facts of the type are visited (creation
+order of the activations of ONE rule, "first fact of the type") is a permutation `perm` of the handles that is fixed for a run with
+at most three inserted facts (no rehash); the driver predicts every permutation. -/
+
+inductive RAct where
+  | own                 -- Retract(handle of the matched fact)
+  | handle (h : Nat)    -- Retract(FactHandle::new(h))
+  | byType              -- RetractByType("C"): the first live fact of the type
+deriving Repr, DecidableEq
+
+structure IncA where
+  ag : Agenda := {}
+  facts : List (Nat × Int × Int) := []
+  rules : List (Nat × CRule × List RAct) := []    -- (name, rule, queued results) in registration order
+  perm : List Nat := []                           -- iteration order of the type index (handles not listed come last)
+  nextHandle : Nat := 1
+  clock : Nat := 0
+
+def IncA.crules (e : IncA) : List (Nat × CRule) := e.rules.map (fun r => (r.1, r.2.1))
+
+/-- `get_by_type("C")` -/
+def ordFacts (perm : List Nat) (facts : List (Nat × Int × Int)) : List (Nat × Int × Int) :=
+  perm.filterMap (fun h => facts.find? (·.1 == h)) ++ facts.filter (fun f => !perm.contains f.1)
+
+def IncA.insert (e : IncA) (a b : Int) : IncA :=
+  let facts := e.facts ++ [(e.nextHandle, a, b)]
+  let r := incAddMatches false e.crules (ordFacts e.perm facts) e.ag e.clock
+  { e with facts := facts, nextHandle := e.nextHandle + 1, ag := r.1, clock := r.2 }
+
+def IncA.update (e : IncA) (h : Nat) (a b : Int) : IncA × Bool :=
+  if e.facts.any (·.1 == h) then
+    let facts := e.facts.map (fun f => if f.1 == h then (h, a, b) else f)
+    let r := incAddMatches false e.crules (ordFacts e.perm facts) e.ag e.clock
+    ({ e with facts := facts, ag := r.1, clock := r.2 }, true)
+  else (e, false)
+
+def IncA.retract (e : IncA) (h : Nat) : IncA × Bool :=
+  if e.facts.any (·.1 == h) then
+    let facts := e.facts.filter (fun f => f.1 != h)
+    let r := incAddMatches false e.crules (ordFacts e.perm facts) e.ag e.clock
+    ({ e with facts := facts, ag := r.1, clock := r.2 }, true)
+  else (e, false)
+
+def incPopA (e : IncA) : Option Act × IncA := (e.ag.getNext.1, { e with ag := e.ag.getNext.2 })
+
+/-- one queued result of `process_action_results`; a failed retraction changes nothing -/
+def IncA.applyAct (e : IncA) (a : Act) : RAct → IncA
+  | .own => (match a.handle with | some h => (e.retract h).1 | none => e)
+  | .handle h => (e.retract h).1
+  | .byType => (match (ordFacts e.perm e.facts).head? with | some f => (e.retract f.1).1 | none => e)
+
+/-- the queued results of the FIRST registration of the activation's rule name (the rule `fire_all` looked up) -/
+def IncA.actsOf (e : IncA) (name : Nat) : List RAct :=
+  match e.rules.find? (fun p => p.1 == name) with
+  | some p => p.2.2
+  | none => []
+
+/-- loop body: action (facts unchanged), `propagate_changes`, `process_action_results`, `mark_rule_fired` -/
+def incBodyA (e : IncA) (a : Act) : IncA × Nat :=
+  let r := incAddMatches true e.crules (ordFacts e.perm e.facts) e.ag e.clock
+  let e1 : IncA := { e with ag := r.1, clock := r.2 }
+  let e2 := (e.actsOf a.rule).foldl (fun e x => e.applyAct a x) e1
+  ({ e2 with ag := e2.ag.mark a }, a.rule)
+
+def incStaleA (e : IncA) (a : Act) : Bool :=
+  match e.rules.find? (fun p => p.1 == a.rule), a.handle with
+  | some p, some h =>
+    (match e.facts.find? (·.1 == h) with
+     | some f => !cMatches p.2.1 f
+     | none => true)
+  | _, _ => true
+
+def IncA.fireAll (e : IncA) : IncA × List Nat :=
+  incLoop incPopA incStaleA (fun e => e.ag.acts.length) incBodyA incBound e []
+
+def IncA.hstep (e : IncA) : HOp → IncA × HRes
+  | .insert a b => (e.insert a b, .handle e.nextHandle)
+  | .update h a b => let r := e.update h a b; (r.1, .ok r.2)
+  | .retract h => let r := e.retract h; (r.1, .ok r.2)
+  | .fire => let r := e.fireAll; (r.1, .fired r.2)
+  | .reset => ({ e with ag := e.ag.reset }, .unit)
+
+def IncA.htrace (e : IncA) : List HOp → List HRes
+  | [] => []
+  | o :: os => (e.hstep o).2 :: IncA.htrace (e.hstep o).1 os
+
 end C07
